@@ -192,8 +192,11 @@ def rule_cond(ctx, rep):
                      '(cursor operations %s, result %r)' % (flag, ops, r), loc(model.unit_of(cip), cip.node))
 
 
-def _cursor_state(w):
-    """Position of a FileWrapper object, whatever its cursor field is called (sum of its int fields that change)."""
+def _cursor_state(w, interp=None):
+    """Position of a FileWrapper object, whatever its cursor field is called and counts: read off its own peek()."""
+    c = tk.cursor_by_peek(interp, w) if interp is not None else None
+    if c is not None:
+        return c
     if isinstance(w.attrs.get('_index'), int):
         return w.attrs['_index']
     vals = [v for k, v in sorted(w.attrs.items()) if isinstance(v, int) and not isinstance(v, bool)
@@ -228,7 +231,7 @@ def rule_used(ctx, rep):
             # the predicate may be shared between classes (a mixin): the receiver says whose it is
             it.func_hooks[f.qualname] = (lambda interp, fi, args, kwargs, c=c:
                                          log.append((args[0].name if isinstance(args[0], ClassInfo) else c.name,
-                                                     _cursor_state(args[-1]))) or False)
+                                                     _cursor_state(args[-1], interp))) or False)
         it.func_hooks[ise.qualname] = lambda interp, fi, args, kwargs: log.append(('SETEXT?', None)) or Cond(('setext', len(log)))
         lines = [AbsStr(label='line%d' % i) for i in range(3)]
         w = it.construct(fw, [lines], {})
